@@ -91,8 +91,12 @@ def check_text(res, tier):
                         c = C.Content(ct, lambda v=v: list(v))
                         res.evaluations += 1
                         res.states += 1
-                        got = c.as_text()
-                        it = "".join(c.iter_text())
+                        try:
+                            got = c.as_text()
+                            it = "".join(c.iter_text())
+                        except UnicodeDecodeError as e:
+                            # (valid text, merely cut inside a character: decoding it cannot fail)
+                            got = it = "raised %s" % e
                         jb = b"".join(c.iter_bytes())
                         if got != want or it != want or jb != data:
                             problems.append(("chunking", "text %r charset %r chunks %r: as_text %r, expected %r" % (text, charset, v, got, want)))
